@@ -339,14 +339,23 @@ func (c *ChoiceReader) Read(p []byte) (int, error) {
 type CutReader struct {
 	Data []byte
 	Cuts []int
-	pos  int
-	ci   int
+	// EmptyBefore makes every piece (and the final io.EOF) be preceded by one empty (0, nil) read: never two
+	// in a row, but as many in total as there are pieces.
+	EmptyBefore bool
+	pos         int
+	ci          int
+	gaveEmpty   bool
 }
 
 func (c *CutReader) Read(p []byte) (int, error) {
 	if len(p) == 0 {
 		return 0, nil
 	}
+	if c.EmptyBefore && !c.gaveEmpty {
+		c.gaveEmpty = true
+		return 0, nil
+	}
+	c.gaveEmpty = false
 	if c.pos >= len(c.Data) {
 		return 0, io.EOF
 	}
